@@ -413,13 +413,16 @@ def run_property(pid, tier='quick', only=None, keep=False, jobs=NCPU):
             continue
         kf = [k for k in known if k['harness'] == r['harness'] and k['define'] == '-' and any(k['assertion'] in f['desc'] for f in r['failed'])]
         if kf and all(any(k['assertion'] in f['desc'] for k in kf) for f in r['failed']):
-            known_hits.append((r, kf[0])); continue
+            for k in kf: known_hits.append((r, k))
+            continue
         violations.append(r)
     for kf in known:
         if kf['define'] != '-':
             print('KNOWN-FINDING: property=%s %s' % (pid, kf['what']))
-    for r, kf in known_hits:
-        print('KNOWN-FINDING: property=%s %s' % (pid, kf['what']))
+    printed = set()
+    for r, kf in known_hits:      # one line per listed finding, however many scenarios exhibit it
+        if kf['what'] not in printed:
+            printed.add(kf['what']); print('KNOWN-FINDING: property=%s %s' % (pid, kf['what']))
     write_evidence(pid, spec, tier, seed, results, selftests, violations, inconcl, time.time() - t0, only)
     if not keep: shutil.rmtree(bdir, ignore_errors=True)
     for r in violations:
